@@ -959,7 +959,10 @@ def run_bigcol_unit(unit, ctx):
         first = True
         cols = list(big_columns(unit["n"], unit["seed"]))
         lo, hi = unit["slice"]
+        stride = unit.get("stride")
         for ci, col in enumerate(cols[lo:hi]):
+            if stride and (ci % stride[1]) != stride[0] * 53:
+                continue
             for box, whisk in ((50, 90), (99, 99.9), (40, 41)):
                 check_bs(ctx, col, box, whisk, sample=first)
                 first = False
@@ -1123,6 +1126,10 @@ def units(tier, seed):
         step = (ncol + 7) // 8
         for lo in range(0, ncol, step):
             us.append({"kind": "bigcol", "n": n, "seed": seed, "slice": [lo, min(ncol, lo + step)]})
+    if quick:
+        # columns longer than 500 values (every 53rd member of the 700-value deviation family)
+        for part in range(4):
+            us.append({"kind": "bigcol", "n": 700, "seed": seed, "slice": [0, 3 * 700 + 4], "stride": [part, 53 * 4]})
     return us
 
 
